@@ -42,9 +42,25 @@ def gen_template(r):
             "nscripted": 1, "ops": [], "net": {}}
 
 
+def gen_shutdown(r):
+    """'... and context shutdown at any point': the client context is shut down while requests are outstanding; the
+    application reacts to failures from inside its callbacks (future done-callbacks, observation errbacks) by asking
+    again at once -- also while the shutdown is still under way -- and submits more requests around that instant."""
+    n = r.randint(2, 6)
+    reqs = [{"t": round(r.choice([0.0, 0.0, 0.05, 0.3, 1.0]), 3), "con": r.chance(0.6), "d": r.choice([0.05, 0.5, 2.0, 30.0]),
+             "behave": r.choice(["piggy", "sep_non", "sep_con", "silent"]), "observe": r.chance(0.3),
+             "retry": r.choice([None, None, "done", "errback"]), "by_name": r.chance(0.15)} for _ in range(n)]
+    t_shut = round(r.choice([0.0, 0.01, 0.051, 0.1, 0.31, 0.55, 1.2, 2.5]) + r.choice([0.0, 0.0, 0.0005]), 4)
+    extra = [round(t_shut + dt, 4) for dt in r.sample([-0.0001, 0.0, 0.0001, 0.001, 0.05, 1.0], r.randint(0, 3))]
+    return {"shutdown": {"reqs": reqs, "t_shut": t_shut, "around": sorted(x for x in extra if x >= 0), "resolve_delay": r.choice([0.0, 0.002, 0.2])},
+            "nscripted": 1, "ops": [], "net": {}}
+
+
 def gen(r, tier):
     if r.chance(0.06):
         return gen_template(r)
+    if r.chance(0.06):
+        return gen_shutdown(r)
     nscripted = r.choice([1, 1, 2])
     ops = []
     n = r.randint(2, 12)
@@ -283,9 +299,112 @@ def execute_template(sim, scn):
         sim.anomaly("loop-exception:%s" % en, "%s %s" % (mm, es))
 
 
+def execute_shutdown(sim, scn):
+    import asyncio
+    from aiocoap import Message, GET, error
+    from aiocoap.numbers.constants import Unreliable
+
+    loop = sim.loop
+    sp = scn["shutdown"]
+    client = loop.run_until_complete(sim.client(common.CLIENT_IP))
+    plans = {}
+    server = ScriptServer(sim, common.PEER_IPS[0], 5683, plans)
+    sim.net.names["good.example"] = common.PEER_IPS[0]
+    if sp.get("resolve_delay"):
+        sim.net.resolve_delay = sp["resolve_delay"]
+    recs = []
+    shut = {"started": None, "returned": None, "exc": None}
+    sim.probe("shutdown_with_requests_outstanding")
+
+    def start(spec, origin):
+        tag = len(recs)
+        plans[tag] = {"behave": spec["behave"], "d": spec["d"]}
+        host = "good.example" if spec.get("by_name") else "[%s]" % server.addr[0]
+        m = Message(code=GET, uri="coap://%s/echo?t=%d" % (host, tag), transport_tuning=None if spec["con"] else Unreliable(),
+                    observe=0 if spec.get("observe") else None)
+        rec = {"tag": tag, "origin": origin, "done": 0, "outcome": None, "t_start": loop.now, "spec": spec, "errback": 0}
+        recs.append(rec)
+        sim.log("app", "start", tag, origin)
+        try:
+            rec["req"] = client.request(m, handle_blockwise=False)
+        except Exception as e:
+            # refusing synchronously is as good as failing at once -- with a library error
+            rec["done"], rec["outcome"], rec["exception"], rec["t_done"] = 1, "error", e, loop.now
+            return
+        retried = []
+
+        def again(how):
+            if retried or spec.get("retry") != how or origin.startswith("retry"):
+                return
+            retried.append(1)
+            sim.probe("request_submitted_from_inside_a_failure_callback")
+            if shut["started"] is not None and shut["returned"] is None:
+                sim.probe("request_submitted_while_shutdown_under_way")
+            start(dict(spec, retry=None), "retry-" + how)
+
+        def done(f, rec=rec):
+            rec["done"] += 1
+            rec["t_done"] = loop.now
+            if f.cancelled():
+                rec["outcome"] = "cancelled"
+            elif f.exception() is not None:
+                rec["outcome"], rec["exception"] = "error", f.exception()
+                again("done")
+            else:
+                rec["outcome"], rec["payload"] = "response", bytes(f.result().payload)
+            sim.log("app", "done", tag, rec["outcome"], type(rec.get("exception")).__name__)
+        rec["req"].response.add_done_callback(done)
+        if spec.get("observe"):
+            def errback(e, rec=rec):
+                rec["errback"] += 1
+                again("errback")
+            rec["req"].observation.register_callback(lambda m_: None)
+            rec["req"].observation.register_errback(errback)
+
+    for spec in sp["reqs"]:
+        loop.at(0.1 + spec["t"], start, spec, "plain")
+    for t in sp["around"]:
+        loop.at(0.1 + t, start, {"con": True, "d": 0.05, "behave": "piggy", "retry": None}, "around")
+
+    async def do_shutdown():
+        shut["started"] = loop.now
+        sim.log("app", "shutdown-start")
+        try:
+            await client.shutdown()
+        except Exception as e:
+            shut["exc"] = e
+        shut["returned"] = loop.now
+        sim.log("app", "shutdown-returned")
+    loop.at(0.1 + sp["t_shut"], lambda: asyncio.ensure_future(do_shutdown()))
+    sim.run()
+    sim.nontrivial = True
+    if shut["returned"] is None:
+        sim.anomaly("shutdown-did-not-return", "")
+    for rec in recs:
+        ident = {"request": rec["tag"], "origin": rec["origin"], "con": rec["spec"]["con"], "observe": bool(rec["spec"].get("observe")),
+                 "t_start": rec["t_start"], "shutdown_started": shut["started"], "shutdown_returned": shut["returned"]}
+        if rec["done"] == 0:
+            sim.violation("C02/request-never-completed", dict(ident, why="context shut down; the result neither arrived nor failed"))
+            continue
+        if rec["done"] > 1:
+            sim.violation("C02/request-completed-twice", ident)
+        if rec["outcome"] == "response" and rec.get("payload") != b"tag:%d" % rec["tag"]:
+            sim.violation("C02/response-of-other-request-delivered", dict(ident, payload=repr(rec.get("payload"))))
+        if rec["outcome"] == "response" and shut["returned"] is not None and rec["t_done"] > shut["returned"] + TOL:
+            sim.violation("C02/response-delivered-after-shutdown", dict(ident, t=rec["t_done"]))
+        if rec["outcome"] == "error" and not isinstance(rec["exception"], error.Error):
+            sim.violation("C02/failure-not-a-library-error", dict(ident, exc=repr(rec["exception"])))
+        if rec["errback"] > 1:
+            sim.violation("C02/observation-failed-twice", ident)
+    for (t, mm, en, es) in sim.loop_exceptions():
+        sim.anomaly("loop-exception:%s" % en, "%s %s" % (mm, es))
+
+
 def execute(sim, scn):
     if scn.get("template"):
         return execute_template(sim, scn)
+    if scn.get("shutdown"):
+        return execute_shutdown(sim, scn)
     import asyncio
     import socket
     import aiocoap.resource as resource
